@@ -1,5 +1,5 @@
 import Gonuts.Lemmas.Token
-import Gonuts.Model.TokenWire
+import Gonuts.Lemmas.TokenWire
 /-!
   # C14 — tokens survive serialisation exactly; decoding arbitrary text never crashes
 
@@ -255,6 +255,66 @@ theorem roundtrip_wire (cod : Codec) (ps : List Proof) (mint : String) (dleq : B
       simp only [Token.serialize, serializeV4, Wire.withRealEncoders] at hs
       cases hs; rfl
     exact ⟨this ▸ hd, hp⟩
+
+/-! ## the wire formats lose nothing -/
+
+/-- **`json.Marshal` of a V3 token and `cbor.Marshal` of a V4 token (as modelled in `Model.TokenWire`, byte for
+    byte what the real libraries emit) are lossless**: a parser for exactly that form reads back the token — every
+    string (quotes, backslashes, control characters, U+2028, non-BMP …), every `uint64` amount, absent vs present
+    witness/DLEQ/`r`/memo.  For CBOR the lengths must fit the 64-bit length fields (`smallToken`). -/
+theorem wire_lossless :
+    (∀ t : TokenV3, Wire.jsonParse (Wire.jsonTokenV3 t) = some t) ∧
+    (∀ t : TokenV4, Wire.smallToken t → Wire.cborParse (Wire.cborTokenV4 t) = some t) :=
+  ⟨Wire.jsonParse_enc, Wire.cborParse_enc⟩
+
+/-- … hence both encodings are injective: two different tokens never serialise to the same string. -/
+theorem wire_injective :
+    (∀ t1 t2 : TokenV3, Wire.jsonTokenV3 t1 = Wire.jsonTokenV3 t2 → t1 = t2) ∧
+    (∀ t1 t2 : TokenV4, Wire.smallToken t1 → Wire.smallToken t2 → Wire.cborTokenV4 t1 = Wire.cborTokenV4 t2 → t1 = t2) :=
+  ⟨Wire.jsonTokenV3_injective, Wire.cborTokenV4_injective⟩
+
+/-- **V3 round trip without any hypothesis about the libraries**, for the codec made of the modelled marshallers
+    and the canonical parsers (`Wire.realCodec`): for every proof list, mint URL and DLEQ flag the serialised
+    string decodes to the token, whose proofs are the input proofs. -/
+theorem v3_roundtrip_closed (ps : List Proof) (mint : String) (dleq : Bool) :
+    ∃ t, newV3 ps mint 0 dleq = .ok t ∧
+      decodeToken Wire.realCodec (Wire.serialize (.v3 t)) = .ok (.v3 t) ∧
+      (Token.v3 t).proofs = ps.map (Proof.keep dleq) ∧ (Token.v3 t).mint = .ok mint ∧
+      (Token.v3 t).amount = amountWrap (ps.map (·.amount)) := by
+  obtain ⟨t, ht, h⟩ := v3_roundtrip Wire.realCodec ps mint dleq
+  refine ⟨t, ht, ?_⟩
+  obtain ⟨s, hs, hd, hp, hm, _, ha⟩ := h (Wire.jsonTokenV3 t) rfl (Wire.jsonParse_enc t)
+  have : s = Wire.serialize (.v3 t) := by
+    simp only [Token.serialize, serializeV3, Wire.realCodec] at hs
+    cases hs; rfl
+  exact ⟨this ▸ hd, hp, hm, ha⟩
+
+example : ∃ t, newV3 psEx "https://mint" 0 true = .ok t ∧
+    decodeToken Wire.realCodec (Wire.serialize (.v3 t)) = .ok (.v3 t) :=
+  let ⟨t, h1, h2, _⟩ := v3_roundtrip_closed psEx "https://mint" true; ⟨t, h1, h2⟩
+
+/-- **V4 round trip without any hypothesis about the libraries** (lower-case hex input; the token must fit the
+    64-bit CBOR length fields, as every token in memory does). -/
+theorem v4_roundtrip_closed (ord : List String) (ps : List Proof) (mint : String) (dleq : Bool)
+    (hord : OrderOf ps ord) (hlow : ∀ p ∈ ps, LowerHexProof dleq p) :
+    ∃ t, newV4 ord ps mint 0 dleq = .ok t ∧
+      (Wire.smallToken t →
+        decodeToken Wire.realCodec (Wire.serialize (.v4 t)) = .ok (.v4 t) ∧
+        (Token.v4 t).proofs = ord.flatMap (fun k => (ps.filter (fun p => p.id = k)).map (Proof.keep dleq)) ∧
+        ((Token.v4 t).proofs).Perm (ps.map (Proof.keep dleq)) ∧ (Token.v4 t).mint = .ok mint ∧
+        (Token.v4 t).amount = amountWrap (ps.map (·.amount))) := by
+  obtain ⟨t, ht, h⟩ := v4_roundtrip Wire.realCodec ord ps mint dleq hord hlow
+  refine ⟨t, ht, fun hsmall => ?_⟩
+  obtain ⟨s, hs, hd, hp, hperm, hm, _, ha⟩ := h (Wire.cborTokenV4 t) rfl (Wire.cborParse_enc t hsmall)
+  have : s = Wire.serialize (.v4 t) := by
+    simp only [Token.serialize, serializeV4, Wire.realCodec] at hs
+    cases hs; rfl
+  exact ⟨this ▸ hd, hp, hperm, hm, ha⟩
+
+-- `smallToken` holds for a concrete token with every optional field present, and the parser reads it back
+example : Wire.cborParse (Wire.cborTokenV4 ⟨[⟨[0, 0xab], [⟨1, "s", [2], "w", some ⟨[1], [2], [3]⟩⟩]⟩], "", "m", "sat"⟩) =
+    some ⟨[⟨[0, 0xab], [⟨1, "s", [2], "w", some ⟨[1], [2], [3]⟩⟩]⟩], "", "m", "sat"⟩ :=
+  Wire.cborParse_enc _ (by simp [Wire.smallToken, Wire.smallGroup, Wire.smallProof, Wire.smallDLEQ]; decide)
 
 /-! ## amounts -/
 
